@@ -280,9 +280,9 @@ func init() {
 		Configs: []string{"default", "oblig1", "oblig2", "oblig-builtin", "custom", "default", "oblig1", "custom"},
 		N: func(tier string) int {
 			if tier == "thorough" {
-				return 5000
+				return 30000
 			}
-			return 400
+			return 2000
 		},
 		Setup: func(tier string, seed uint64, config string) string {
 			configureRegistries(config)
